@@ -131,9 +131,47 @@ func extractHandshake(p *pkgs, f *facts) {
 			addressLast = total == 1 && onlyReturns
 		}
 	}
-	f.lean = append(f.lean, fmt.Sprintf("def handshake : Handshake.Params := ⟨%s, %s, %d, %d, %d, %s⟩",
-		leanBool(addrErrChecked), leanBool(certNilGuard), minFields, certMinLen, core, leanBool(addressLast)))
-	f.set("handshake", map[string]interface{}{"addrErrChecked": addrErrChecked, "certNilGuard": certNilGuard, "addressAssignedLast": addressLast,
+	// (6) the deferred clean-up that kills the runner: `v := recover()`, the kill's condition mentions v, and `panic(v)` follows
+	killOnPanic := false
+	if start != nil {
+		for _, st := range start.Body.List {
+			d, ok := st.(*ast.DeferStmt)
+			if !ok {
+				continue
+			}
+			fl, ok := d.Call.Fun.(*ast.FuncLit)
+			if !ok || !strings.Contains(nodeCalls(fl.Body), ".Kill(") {
+				continue
+			}
+			rv := ""
+			ast.Inspect(fl.Body, func(n ast.Node) bool {
+				if as, ok := n.(*ast.AssignStmt); ok && len(as.Lhs) == 1 && len(as.Rhs) == 1 && exprString(as.Rhs[0]) == "recover()" {
+					rv = exprString(as.Lhs[0])
+				}
+				return true
+			})
+			if rv == "" {
+				continue
+			}
+			killGuarded, repanics := false, false
+			ast.Inspect(fl.Body, func(n ast.Node) bool {
+				if is, ok := n.(*ast.IfStmt); ok {
+					c := exprString(is.Cond)
+					if strings.Contains(nodeCalls(is.Body), ".Kill(") && strings.Contains(c, rv+"!=nil") && strings.Contains(c, "||") {
+						killGuarded = true
+					}
+					if strings.Contains(nodeCalls(is.Body), "panic("+rv+")") {
+						repanics = true
+					}
+				}
+				return true
+			})
+			killOnPanic = killGuarded && repanics
+		}
+	}
+	f.lean = append(f.lean, fmt.Sprintf("def handshake : Handshake.Params := ⟨%s, %s, %d, %d, %d, %s, %s⟩",
+		leanBool(addrErrChecked), leanBool(certNilGuard), minFields, certMinLen, core, leanBool(addressLast), leanBool(killOnPanic)))
+	f.set("handshake", map[string]interface{}{"addrErrChecked": addrErrChecked, "certNilGuard": certNilGuard, "addressAssignedLast": addressLast, "deferKillsOnPanic": killOnPanic,
 		"minFields": minFields, "certMinLen": certMinLen, "coreVersion": core})
 }
 
